@@ -24,6 +24,26 @@ func Parser(c refrv.Cfg) riscv.Parser {
 	return riscv.NewParser(v, exts...)
 }
 
+// ParserOrder builds the parser of a configuration with the extensions listed in
+// descending order (A before M); the configuration is a set, the order must not matter.
+func ParserOrder(c refrv.Cfg, reversed bool) riscv.Parser {
+	if !reversed {
+		return Parser(c)
+	}
+	v := riscv.Variant32
+	if c.XLEN == 64 {
+		v = riscv.Variant64
+	}
+	var exts []riscv.Extension
+	if c.A {
+		exts = append(exts, riscv.ExtA)
+	}
+	if c.M {
+		exts = append(exts, riscv.ExtM)
+	}
+	return riscv.NewParser(v, exts...)
+}
+
 // LE returns the little-endian bytes of a word.
 func LE(w uint32) []byte { return []byte{byte(w), byte(w >> 8), byte(w >> 16), byte(w >> 24)} }
 
